@@ -474,4 +474,99 @@ mod verif_cex_commit {
             let _ = std::fs::remove_file(&p);
         }
     }
+    // ---- C10 with a LARGE, SCATTERED free list (more than 2000 single free pages spread over the file, below a long free run):
+    // a value of several pages is overwritten again and again; the runs its old versions leave behind must be found again, so
+    // the high-water mark reaches a plateau (the allocator looks at the whole list, however long)
+    #[test]
+    fn cex_commit_growth_plateau_scattered() {
+        let hwm = |db: &DB| -> u64 { db.inner.meta().unwrap().num_pages };
+        let p = tmp("plateau-scattered");
+        let db = OpenOptions::new().pagesize(PS).open(&p).unwrap();
+        put_keys(&db, 0, 9000, 150, 1).unwrap();
+        { let tx = db.tx(true).unwrap(); { let b = tx.get_bucket("b").unwrap(); for i in 0..9000u32 { if (i / 6) % 2 == 0 { b.delete(format!("key{:05}", i)).unwrap(); } } } tx.commit().unwrap(); }
+        let big = |db: &DB, round: u32| { let tx = db.tx(true).unwrap(); tx.get_bucket("b").unwrap().put("zz-big", vec![round as u8; 8000]).unwrap(); tx.commit().unwrap(); };
+        for r in 0..30u32 { big(&db, r); }
+        let at30 = hwm(&db);
+        for r in 30..90u32 { big(&db, r); }
+        let at90 = hwm(&db);
+        let free = db.inner.freelist.lock().unwrap().pages().len();
+        if at90 > at30 + 24 {
+            println!("CEX C10 (file growth bounded by live data): history (page size 1024): 9000 keys of 150 bytes in one transaction, every other group of 6 deleted (a free list of {} ids, most of them single pages scattered over the file), then one 8000-byte value overwritten 90 times: the page high-water mark is {} after 30 overwrites and {} after 90", free, at30, at90);
+            panic!("c10-growth-scattered");
+        }
+        db.check().unwrap();
+        drop(db);
+        let _ = std::fs::remove_file(&p);
+    }
+    // ---- C02 across TWO power losses (no shim: images are built from copies of the file between commits).  Crash 1 tears the header
+    // write of a commit at 8-byte word granularity (every subset of the words that differ); the image is reopened, one more commit
+    // is made, and crash 2 tears THAT header write the same way.  Every image must reopen, pass check() and show the state before
+    // or after the interrupted commit.  An image whose header slot holds, byte for byte, the COMPLETE header of the commit that
+    // crash 1 interrupted is the recorded finding E14 (the commit redone after recovery gets the same transaction id and goes to
+    // the same slot, so two tears together can complete the dead header); it is reported under its own key
+    #[test]
+    fn cex_commit_two_power_losses() {
+        let ps = 4096usize;
+        let base = tmp("two-base"); let p1 = tmp("two-c1"); let p2 = tmp("two-c2");
+        let open = |p: &PathBuf| OpenOptions::new().pagesize(ps as u64).num_pages(64).open(p).unwrap();
+        let state = |p: &PathBuf| -> Result<BTreeMap<Vec<u8>, Vec<u8>>, String> {
+            let pp = p.clone();
+            std::panic::catch_unwind(move || { let db = OpenOptions::new().pagesize(4096).num_pages(64).open(&pp).map_err(|e| format!("open fails: {:?}", e))?; db.check().map_err(|e| format!("check() fails: {:?}", e))?; Ok::<_, String>(contents(&db)) })
+                .unwrap_or_else(|_| Err("reopening panics".to_string()))
+        };
+        let put = |p: &PathBuf, from: u32, to: u32, tag: u8| { let db = open(p); put_keys(&db, from, to, 120, tag).unwrap(); };
+        put(&base, 0, 40, 1); put(&base, 20, 60, 2);
+        let state_n = state(&base).unwrap();
+        let img_a = std::fs::read(&base).unwrap();
+        put(&base, 10, 50, 3);
+        let state_n1 = state(&base).unwrap();
+        let img_b = std::fs::read(&base).unwrap();
+        let hdr_write = |before: &[u8], after: &[u8]| -> (usize, Vec<usize>) {
+            let mut found = None;
+            for slot in 0..2 { let b = slot * ps; let w: Vec<usize> = (0..ps).step_by(8).filter(|o| before[b + o..b + o + 8] != after[b + o..b + o + 8]).collect(); if !w.is_empty() { found = Some((slot, w)); } }
+            found.expect("a commit wrote no header page")
+        };
+        let torn = |before: &[u8], after: &[u8], slot: usize, words: &[usize], mask: u32| -> Vec<u8> {
+            let mut img = after.to_vec(); let b = slot * ps;
+            img[b..b + ps].copy_from_slice(&before[b..b + ps]);
+            for (i, o) in words.iter().enumerate() { if mask & (1 << i) != 0 { img[b + o..b + o + 8].copy_from_slice(&after[b + o..b + o + 8]); } }
+            img
+        };
+        let (slot1, words1) = hdr_write(&img_a, &img_b);
+        if img_a.len() != img_b.len() || words1.len() > 8 { println!("cex two power losses: unexpected shape ({} differing words), skipped", words1.len()); return; }
+        let hist = "history (page size 4096): commit 40 keys, commit 40 keys (state N), commit 40 keys (N+1)";
+        let mut known = 0usize; let mut first_known = String::new();
+        for mask1 in 0..(1u32 << words1.len()) {
+            let c1 = torn(&img_a, &img_b, slot1, &words1, mask1);
+            std::fs::write(&p1, &c1).unwrap();
+            let rec = match state(&p1) { Ok(s) if s == state_n || s == state_n1 => s, other => {
+                println!("CEX TxInner::write_data (C02, one power loss): {}; power lost during the header write of N+1, of its {} changed 8-byte words only those of mask {:#b} reached the disk: {}", hist, words1.len(), mask1, match other { Ok(s) => format!("the image shows {} entries: neither N ({}) nor N+1 ({})", s.len(), state_n.len(), state_n1.len()), Err(e) => e });
+                panic!("two-c1"); } };
+            { let db = open(&p1); put_keys(&db, 900 + mask1, 901 + mask1, 120, 4).unwrap(); }
+            let after = state(&p1).unwrap();
+            let img_d = std::fs::read(&p1).unwrap();
+            let (slot2, words2) = hdr_write(&c1, &img_d);
+            if words2.len() > 8 { continue; }
+            for mask2 in 0..(1u32 << words2.len()) {
+                let c2 = torn(&c1, &img_d, slot2, &words2, mask2);
+                std::fs::write(&p2, &c2).unwrap();
+                let got = state(&p2);
+                if matches!(&got, Ok(s) if *s == rec || *s == after) { continue; }
+                let h = |img: &[u8]| img[slot2 * ps..slot2 * ps + ps].to_vec();
+                let what = format!("{}; power loss 1 during the header write of N+1 (word mask {:#b} of {} words, slot {}); reopened (recovery shows {} entries), one more commit; power loss 2 during ITS header write (word mask {:#b} of {} words, slot {}): {}", hist, mask1, words1.len(), slot1, rec.len(), mask2, words2.len(), slot2, match &got { Ok(s) => format!("the image shows {} entries: neither the state before ({}) nor after ({}) the interrupted commit", s.len(), rec.len(), after.len()), Err(e) => e.clone() });
+                if slot2 == slot1 && h(&c2) == h(&img_b) && h(&c2) != h(&c1) && h(&c2) != h(&img_d) {
+                    // E14: the two tears together completed the header record of the commit crash 1 interrupted
+                    known += 1; if first_known.is_empty() { first_known = what; }
+                } else {
+                    println!("CEX TxInner::write_data (C02, two power losses): {}", what);
+                    panic!("two-c2");
+                }
+            }
+        }
+        for p in [&base, &p1, &p2] { let _ = std::fs::remove_file(p); }
+        if known > 0 {
+            println!("CEX [finding-key resurrected-header] TxInner::write_data (C02, two power losses): {} images in which the header slot holds, byte for byte, the COMPLETE header of the commit that the first power loss interrupted (the commit made after recovery reuses its transaction id and its slot), e.g.: {}", known, first_known);
+            panic!("two-known");
+        }
+    }
 }
